@@ -144,17 +144,18 @@ func (k BaseKeeper) TransferOwnership(ctx sdk.Context, owner, newOwner sdk.AccAd
 		leftovers = append(leftovers, leftCoin)
 	}
 
-	// Add coins to new owner
-	err := k.addCoinsToAccount(ctx, newOwner, amount)
-	if err != nil {
-		return nil, err
-	}
-
-	// Remove coins from old owner
+	// Remove coins from old owner first: the new owner may be the same account,
+	// whose credit must not be overwritten by the precomputed leftovers
 	for _, coin := range leftovers {
 		if err := k.setBalance(ctx, owner, coin); err != nil {
 			return nil, err
 		}
+	}
+
+	// Add coins to new owner
+	err := k.addCoinsToAccount(ctx, newOwner, amount)
+	if err != nil {
+		return nil, err
 	}
 
 	// Update holders index
